@@ -812,6 +812,52 @@ fn gen_c11(out: &mut Out, rng: &mut Rng, thorough: bool) {
 // ------------------------------------------------------------------------------------
 // state-machine properties: histories
 
+/// reference counts that only go DOWN between two saves (the released strings stay referenced
+/// elsewhere), across every way of closing; then release the rest: no text may stay behind
+fn gen_c08_directed(out: &mut Out, rng: &mut Rng, n: usize) {
+    let t = hex_of_str("T");
+    let k = hex_of_str("K");
+    let sc = hex_of_str("S");
+    let texts = ["shared", "other text", "third"];
+    for case in 0..n {
+        out.req("new", format!("new {}", rng.below(3)));
+        out.req("create_table", format!("create_table {t} {k}:i16:K:-:-:-:- {sc}:s32:N:-:-:-:- {}:s0:LN:-:-:-:-", hex_of_str("D")));
+        let rows = 3 + rng.below(5) as i32;
+        let mut parts = vec![rows.to_string()];
+        for r in 0..rows {
+            parts.push(format!("3 I{} S{} S{}", r + 1, hex_of_str(texts[(r % 2) as usize]), hex_of_str(texts[((r + case as i32) % 3) as usize])));
+        }
+        out.req("insert", format!("insert {t} {}", parts.join(" ")));
+        match case % 3 {
+            0 => out.req("flush", "flush".into()),
+            1 => out.req("reopen", format!("reopen {}", rng.pick(&crate::hist::CLOSE_MODES))),
+            _ => {}
+        }
+        // release some references, never the last one of a string
+        match rng.below(3) {
+            0 => out.req("delete", format!("delete {t} eq C{k} I1")),
+            1 => out.req("update", format!("update {t} 1 {sc} S{} eq C{k} I1", hex_of_str(texts[1]))),
+            _ => out.req("update", format!("update {t} 1 {} N eq C{k} I{}", hex_of_str("D"), 1 + rng.below(2))),
+        }
+        out.req("flush", "flush".into());
+        out.req("raw", "raw".into());
+        out.req("snapshot", "snapshot".into());
+        out.req("reopen", format!("reopen {}", rng.pick(&crate::hist::CLOSE_MODES)));
+        out.req("snapshot", "snapshot".into());
+        if rng.chance(1, 2) {
+            out.req("delete", format!("delete {t} -"));
+        } else {
+            out.req("drop_table", format!("drop_table {t}"));
+        }
+        out.req("flush", "flush".into());
+        out.req("snapshot", "snapshot".into());
+        out.req("raw", "raw".into());
+        out.req("reopen", format!("reopen {}", rng.pick(&crate::hist::CLOSE_MODES)));
+        out.req("snapshot", "snapshot".into());
+        out.req("raw", "raw".into());
+    }
+}
+
 fn gen_hist_prop(prop: &str, out: &mut Out, rng: &mut Rng, thorough: bool) {
     use crate::hist::*;
     let mut cfg = HistCfg {
@@ -832,6 +878,7 @@ fn gen_hist_prop(prop: &str, out: &mut Out, rng: &mut Rng, thorough: bool) {
         }
         "C08" => {
             cfg.summary = false;
+            gen_c08_directed(out, rng, if thorough { 600 } else { 60 });
         }
         _ => {}
     }
